@@ -65,10 +65,8 @@ func (cx *Ctx) isErrorReply(c ssa.CallInstruction) bool {
 			if p.count() != 1 {
 				return false
 			}
-			for i, a := range p.Acts {
-				if !p.Failed[i] && !cx.isErrorReply(a.Call) {
-					return false
-				}
+			if ok, _ := cx.errorReplyActs(p.Acts, p.Failed); !ok {
+				return false
 			}
 		}
 		return true
@@ -86,6 +84,51 @@ func (cx *Ctx) isErrorReply(c ssa.CallInstruction) bool {
 		return true
 	}
 	return false
+}
+
+// errorReplyActs: the acts of a path (or of its tail) form an error reply: each is an error reply by itself, or a
+// raw body write that follows a WriteHeader with a constant status >= 400. Acts that failed are judged only when
+// nothing else on the path replied.
+func (cx *Ctx) errorReplyActs(acts []emitAct, failed []bool) (bool, emitAct) {
+	anyLive := false
+	for i := range acts {
+		if !failed[i] {
+			anyLive = true
+		}
+	}
+	errStatus := false
+	for i, a := range acts {
+		if failed[i] && anyLive {
+			continue
+		}
+		switch {
+		case a.Kind == "ResponseWriter.WriteHeader":
+			ok := false
+			if args := a.Call.Common().Args; len(args) > 0 {
+				if vals, isC := constIntSet(args[0], 0); isC && len(vals) > 0 {
+					ok = true
+					for _, v := range vals {
+						if v < 400 {
+							ok = false
+						}
+					}
+				}
+			}
+			if !ok {
+				return false, a
+			}
+			errStatus = true
+		case isRawBodyKind(a.Kind):
+			if !errStatus {
+				return false, a
+			}
+		default:
+			if !cx.isErrorReply(a.Call) {
+				return false, a
+			}
+		}
+	}
+	return true, emitAct{}
 }
 
 // checkErrReply (R-ERR for functions that reply themselves): for every fallible call in the void function fn the
@@ -142,18 +185,17 @@ func (cx *Ctx) checkErrReply(r *Report, rule, key string, fn *ssa.Function) int 
 			for i, b := range p.Path.Blocks {
 				idx[b] = i
 			}
-			eff := 0
+			sub := emitPath{Path: p.Path}
 			for i, a := range p.Acts {
 				if idx[a.Call.Block()] < at {
 					continue
 				}
-				if p.Failed[i] {
-					continue
-				}
-				eff++
-				if !cx.isErrorReply(a.Call) {
-					bad = fmt.Sprintf("after %s failed the reply is %s at %s, which is not an error reply", shortCallee(calleeName(call)), a.Kind, w.InstrPos(a.Call))
-				}
+				sub.Acts = append(sub.Acts, a)
+				sub.Failed = append(sub.Failed, p.Failed[i])
+			}
+			eff := sub.count()
+			if ok, a := cx.errorReplyActs(sub.Acts, sub.Failed); !ok {
+				bad = fmt.Sprintf("after %s failed the reply is %s at %s, which is not an error reply", shortCallee(calleeName(call)), a.Kind, w.InstrPos(a.Call))
 			}
 			if eff != 1 && bad == "" {
 				bad = fmt.Sprintf("after %s failed a path performs %d reply acts (%s)", shortCallee(calleeName(call)), eff, p.describe(w))
@@ -278,10 +320,8 @@ func checkC10(cx *Ctx, r *Report) {
 			es := cx.emitSummaryOf(ef, nil)
 			bad := ""
 			for _, p := range es.Paths {
-				for i, a := range p.Acts {
-					if !p.Failed[i] && !cx.isErrorReply(a.Call) {
-						bad = "the callback answers with " + a.Kind + ", which is not an error reply"
-					}
+				if ok, a := cx.errorReplyActs(p.Acts, p.Failed); !ok {
+					bad = "the callback answers with " + a.Kind + ", which is not an error reply"
 				}
 				if p.count() != 1 {
 					bad = fmt.Sprintf("the callback performs %d reply acts", p.count())
